@@ -1,10 +1,26 @@
-(* Properties_C05.v — obligations of property C05.  Contains only theorem statements closed by
-   `exact <lemma>` and Print Assumptions. *)
-Require Import ObsRun.
+(* Properties_C05.v — obligations of property C05 (no memory-unsafe or undefined behaviour),
+   the part a Gallina model can carry: with CHECKED array accesses in the model (an index outside
+   its array raises the ghost flag `fault` instead of being silently ignored), no call sequence
+   with well-formed arguments (16-bit blocks, 8-bit error codes, thresholds 0..255, byte strings
+   of any length, NULL) ever raises it.  PARTIAL: object layout, uninitialised reads, libc and
+   compiler-level undefined behaviour are outside the model; the check searches for them with
+   ASan/UBSan/valgrind builds (not a proof). *)
+Require Import ObsRun Lemmas_Step.
 Local Open Scope Z_scope.
 
-(* non-vacuity: the observer of C05 is evaluated (and holds) along a run of the model that
-   touches every group kind *)
-Example C05_scenario : check_run_u (observer_u 5) scenario = true.
+Theorem C05_no_index_leaves_its_array_partial : forall conv lut h s,
+  reach conv lut h s -> fault s = false.
+Proof. exact no_fault. Qed.
+Print Assumptions C05_no_index_leaves_its_array_partial.
+
+(* the invariant behind it: buffer capacities 8/64/64/8, AF bitmaps of 26 bytes, thresholds
+   clamped to 0..2 (so the weighted level stays below 10), last RT flag in {-1,0,1} *)
+Theorem C05_invariant : forall conv lut h s, reach conv lut h s -> Inv conv s.
+Proof. exact reach_inv. Qed.
+Print Assumptions C05_invariant.
+
+(* every call is a total function: the model has no fuel and no partiality; strings of any length
+   are consumed by structural recursion (utils_convert), so "every call returns" holds by
+   construction of the model and is tied to the code by the runs under a timeout *)
+Example C05_scenario : fault (run_u scenario) = false.
 Proof. vm_compute. reflexivity. Qed.
-Print Assumptions C05_scenario.
